@@ -58,7 +58,9 @@ BAD_V1 = {
     "CHARSET": ["UTF-8", "8859-1", "CP1252", "", "none", "1253"],
     "COMPRESSION": ["GZIP", "", "none", "NONEX"],
     "OLDFILEUID": ["x" * 37, "", "a b", "a.b", "a" * 100],
-    "NEWFILEUID": ["y" * 37, "", "a" * 100],
+    # the last three: a value that leaves the character class after an in-class prefix — for the LAST v1 field the
+    # unanchored pattern matches the prefix and hands the rest to the body (recorded finding v1-newfileuid-prefix-accepted)
+    "NEWFILEUID": ["y" * 37, "", "a" * 100, "a.b", "a b", "abc$def"],
 }
 # versions the v1 class accepts although they are not v1 (1xx) versions
 V1_VERSION_NOT_1XX = ["220", "999", "7", "99", "200", "0", "000"]
@@ -271,8 +273,14 @@ def run(ctx):
                 tag = f"{meta['kind']}_{meta['what']}_{meta['field']}_accepted"
             else:
                 tag = f"{meta['kind']}_{meta['what']}_{meta['field']}_raises_{impl[1]}"
+            bad_v = meta.get("value") or ""
+            k = 0
+            while k < len(bad_v) and (bad_v[k].isalnum() and bad_v[k].isascii() or bad_v[k] in "_-"):
+                k += 1
+            vkind = ("class_prefix" if 0 < k < len(bad_v) and k <= 36 else "over_long" if k == len(bad_v) and k > 36
+                     else "other") if meta["what"] == "corrupt" else meta["what"]
             ctx.violate(tag, case, f"header text with {meta} -> {impl!r:.160}; a header object must never come back",
-                        {"field": meta["field"]})
+                        {"field": meta["field"], "value_kind": vkind})
         if exp == "ok" and (impl[0] != "ok" or impl[2] != BODY):
             if meta["kind"] == "v1" and meta.get("sep") in ("\r\n", "\n") and impl[0] == "ok" and impl[2] == BODY[1:]:
                 continue  # the C05 offset defect (glued body): reported under C05
